@@ -189,7 +189,8 @@ def impl_run(sc):
 
 
 def py_decode(ww, wave, labels):
-    """independent reader of one WaveDrom signal: returns the sample list or raises ValueError."""
+    """independent reader of one WaveDrom signal: returns the sample list or raises ValueError.  Canonical: a value
+    character that merely repeats the previous sample is rejected (repeats are dots)."""
     if len(wave) < 2 or wave[0] != 'x' or wave[-1] != 'x': raise ValueError('row must be x...x: %r' % wave)
     out, last, labels = [], None, list(labels)
     for c in wave[1:-1]:
@@ -205,6 +206,7 @@ def py_decode(ww, wave, labels):
             lb = labels.pop(0)
             if not lb or any(ch not in '0123456789ABCDEF' for ch in lb): raise ValueError('label %r' % lb)
             v = int(lb, 16)
+        if c != '.' and v == last: raise ValueError('a repeated value must be run-length encoded as a dot')
         out.append(v); last = v
     if labels: raise ValueError('unused labels %r' % labels)
     return out
